@@ -5,11 +5,11 @@ import json, os, re, collections, functools
 READY = True
 
 META = {
-    "technique": "Lean 4 proof (model of the root tokenizer incl. tag interiors with string literals and every escape of utils::unescape, line statements/comments and the Aho-Corasick start-marker search as syntax.rs builds it = declarative whitespace rules on segment lists, for every setting, marker placement, line ending and every delimiter set SyntaxConfigBuilder::build accepts except those whose delimiters contain rule-relevant whitespace) + enumerated/sampled correspondence of model, Lean spec, an independent Python implementation of the rules and the real engine (tokenizer, find_start_marker and Environment::render_str)",
+    "technique": "Lean 4 proof (model of the root tokenizer incl. tag interiors with string literals and every escape of utils::unescape, line statements/comments and the Aho-Corasick start-marker search as syntax.rs builds it = declarative whitespace rules on segment lists, for every setting, marker placement, line ending and every delimiter set SyntaxConfigBuilder::build accepts except those whose delimiters contain rule-relevant whitespace) + enumerated/sampled correspondence of model, Lean spec, an independent Python implementation of the rules and the real engine (tokenizer, find_start_marker, the automaton's own overlapping-match report, the tokens inside tags and Environment::render_str); final theorem C10_main states the property for the tokenizer itself with the two ties to the code (AcSpec of the automaton, tokenizer = model) as named hypotheses",
     "category": "proof",
-    "text": "Kernel-checked theorems about MJ/Model/Lexer.lean (transcription of Tokenizer::new, tokenize_root, find_start_marker incl. validated_start_delims / pattern_to_marker / the overlapping-match loop with max_pattern_len, find_start_marker_memchr, lstrip_block, should_lstrip_block, handle_tail_ws, skip_newline_if_trim_blocks, comment and raw handling incl. skip_basic_tag's marker-then-end rule, tokenize_block_or_var with numbers, operators, bracket depth and string literals: eat_string's quote search and unescape's \\uXXXX with surrogate pairs, \\xXX, octal and simple escapes, unterminated strings; line statements and line comments with skip_nl): the search the tokenizer uses is leftmost-longest for every delimiter set build accepts; the end of a tag is found exactly behind any well-formed token-list interior, for every end delimiter that does not begin with ASCII whitespace (it may begin with -, +, digits, letters, quotes: `-->`, `+}`, `1>`, `v>`); on every template whose texts contain no start delimiter and whose tags read back as written the lexed text equals specRender, which applies the five rules of the statement locally and treats a line statement / line comment as the block / comment tag occupying its line; the result does not depend on the delimiter set and default-looking tags are plain text under other delimiters.  Tied to /repo by running segment sequences (alphabets of the quantifier x tags incl. degenerate and rich interiors, strings that contain the family's own delimiters, ~100 escape bodies valid and invalid x marker pairs x 8 settings x 23 delimiter families incl. end delimiters beginning with -, +, a digit, a letter, whitespace and ending in blanks), degenerate tags as programs in every family against the default syntax, random delimiter sets x random sources, line statement layouts under 79 families with line prefixes and core-fragment programs through machinery::tokenize, Environment::render_str, the compiled Lean model and spec, and a second implementation of the rules in Python; the real find_start_marker (hook) against the model of the automaton path, the Lean reference search and a Python search on every haystack of length <= 5 (thorough 6) over {a, b, blank, newline} for start delimiter sets whose members are prefixes / suffixes / infixes of one another and overlap themselves, in every role; invalid delimiter sets must be rejected by SyntaxConfigBuilder::build.",
+    "text": "Kernel-checked theorems about MJ/Model/Lexer.lean (transcription of Tokenizer::new, tokenize_root, find_start_marker incl. validated_start_delims / pattern_to_marker / the overlapping-match loop with max_pattern_len, find_start_marker_memchr, lstrip_block, should_lstrip_block, handle_tail_ws, skip_newline_if_trim_blocks, comment and raw handling incl. skip_basic_tag's marker-then-end rule, tokenize_block_or_var with numbers, operators, bracket depth and string literals: eat_string's quote search and unescape's \\uXXXX with surrogate pairs, \\xXX, octal and simple escapes, unterminated strings; line statements and line comments with skip_nl): the search the tokenizer uses is leftmost-longest for every delimiter set build accepts; the end of a tag is found exactly behind any well-formed token-list interior, for every end delimiter that does not begin with ASCII whitespace (it may begin with -, +, digits, letters, quotes: `-->`, `+}`, `1>`, `v>`); on every template whose texts contain no start delimiter and whose tags read back as written the lexed text equals specRender, which applies the five rules of the statement locally and treats a line statement / line comment as the block / comment tag occupying its line; the result does not depend on the delimiter set and default-looking tags are plain text under other delimiters.  Tied to /repo by running segment sequences (alphabets of the quantifier x tags incl. degenerate and rich interiors, strings that contain the family's own delimiters, ~100 escape bodies valid and invalid x marker pairs x 8 settings x 23 delimiter families incl. end delimiters beginning with -, +, a digit, a letter, whitespace and ending in blanks), degenerate tags as programs in every family against the default syntax, random delimiter sets x random sources, line statement layouts under 79 families with line prefixes and core-fragment programs through machinery::tokenize, Environment::render_str, the compiled Lean model and spec, and a second implementation of the rules in Python; the real find_start_marker (hook) against the model of the automaton path, the Lean reference search and a Python search on every haystack of length <= 5 (thorough 6) over {a, b, blank, newline} for start delimiter sets whose members are prefixes / suffixes / infixes of one another and overlap themselves, in every role; invalid delimiter sets must be rejected by SyntaxConfigBuilder::build.  Session 4: C10_main (named hypotheses hAc: the report of aho_corasick::find_overlapping meets AcSpec = exactly the occurrences, ordered by end offset; hLex: the tokenizer is the model run on that report) gives the full statement for the tokenizer; ac_loop_of_spec proves the max_pattern_len loop leftmost-longest over ANY report that meets AcSpec, ac_spec_decided that the executable acSpecB decides AcSpec, and the kac stream runs acSpecB on what the REAL automaton reports (hook start_marker_matches) on every enumerated haystack and the model loop on that real report.  The expression-level lexer emits its tokens in the model (scanPieces: text of every identifier, number in every notation, string literal, one / two character operator, bracket and every skipped blank): tokens_concat_verbatim (for every end delimiter and every input on which the tag end is found, the pieces in order + marker + end delimiter + unread rest are the input: no character lost or invented), interior_is_partitioned (for a tag that reads back as written the pieces concatenate to exactly the interior), pieces_same_end; the itok stream compares the model's token texts and tag end with the source text of the tokens the real lexer emits (from their spans) on ~95k interiors glued from token fragments with and without blanks (longest-match cases `1.5.2`, `2.foo`, `//=`, `***`, `1e+`, `0x`), every closing marker, 13 families incl. end delimiters that begin with -, +, a digit, a letter, and as line statements.",
     "design_ref": "DESIGN.md §3 C10",
-    "level_note": "Trusted: Lean kernel; hand transcription of lexer.rs / syntax.rs / utils::unescape into MJ/Model/Lexer.lean (validated on every generated case, including non-delimiter-free texts and lexer errors); aho_corasick::find_overlapping is represented by 'all occurrences ordered by end offset' (the proof does not depend on the order among matches with the same end; the kac stream compares the real search exhaustively on small haystacks); byte offsets of the Rust code are character positions of the model.  MOVED FROM VALIDATED TO PROVED in this round: (1) string literals with \\uXXXX (incl. surrogate pairs and from_str_radix's leading +), \\xXX and octal escapes are tokens of lex_eq_spec / interior_end_found (Tok.str with strBodyOk = what unescape accepts, proved equal to the model's character-by-character reading; they were 'unsupported'); (2) end delimiters that begin with - / + (after fix 2cdfe64), with digits, letters, quotes or any other non-blank character, comment ends that begin with whitespace, end delimiters that end in horizontal whitespace, and block/variable/comment start delimiters that end in a line break are inside goodDelims (they were excluded by hypothesis; the excluded point hid the defect); (3) raw tags under such end delimiters (skip_basic_tag).  NOT COVERED by the theorems, with the reason (real code probed at each point): (a) start delimiters that begin with whitespace (` {%`): after `-}}` or, for a leading line break, under trim_blocks the lexer removes the whitespace the next delimiter begins with and the tag becomes text - the statement's clauses 'whitespace adjacent to a - marker is removed' and 'rewriting tags to other delimiters changes nothing' contradict each other there; (b) line prefixes that end in a line break and end delimiters whose last non-blank character is a line break (`%}\\n`): Tokenizer::new removes the template's trailing line break, which is then part of the last tag's delimiter (the tag no longer closes), and lstrip_blocks sees a line start behind the tag - again a rule of the statement applies to whitespace that belongs to a delimiter; (c) variable / block end delimiters that begin with ASCII whitespace: build accepts them but blanks inside a tag are skipped before the end delimiter is looked for, so no tag ever closes (every tag is a syntax error; the cfg stream checks that such a set renders the probe as written or fails); (d) non-ASCII identifiers (model answers 'unsupported'; 713 of 12216 random-set cases).  Sources that do not read back as written are outside by definition of the statement (`<!---->` = `<!--` + left marker + unclosed body; end delimiter `--` followed by the text `-x` = marker + end, as in Jinja2).  The parser / code generator / renderer behind the lexer are covered by the differential runs only.",
+    "level_note": "Trusted: Lean kernel; hand transcription of lexer.rs / syntax.rs / utils::unescape into MJ/Model/Lexer.lean (validated on every generated case, including non-delimiter-free texts and lexer errors; = hypothesis hLex of C10_main); aho_corasick::find_overlapping enters only through the named specification AcSpec (hypothesis hAc of C10_main; evaluated by the proved decision procedure acSpecB on the real automaton's report for every kac haystack: exhaustive on haystacks of length <= 5 / 6, not proved for longer ones); byte offsets of the Rust code are character positions of the model.  MOVED FROM VALIDATED TO PROVED in session 4: (1) the abstraction 'find_overlapping = all occurrences ordered by end offset' is no longer built into the definition the theorems use: acLoop_eq_findLL_of_spec / ac_loop_of_spec hold for every report that meets AcSpec (order among equal ends and multiplicities free), and C10_main takes the report as a parameter; (2) the tokens inside tags: tokens_concat_verbatim, interior_is_partitioned, pieces_same_end about scanPieces (before: only the position of the tag end was modelled, interior tokens were invisible to the correspondence - the `tok=` comparison ignores them); (3) the main theorem C10_main with the gap to the code as hypotheses, C10_main_gives_full; (4) the clause 'the only characters ever removed are those the whitespace rules name' as theorems about the declarative rules themselves: text_is_partitioned (every text = removed prefix ++ printed part ++ removed suffix), removed_left_is_named (behind `-` exactly the leading whitespace, under trim_blocks exactly one line break behind an unmarked block / comment / raw tag, nothing behind `+` / a variable tag), removed_right_is_named (in front of `-` trailing whitespace, under lstrip_blocks only horizontal whitespace and only when the line holds nothing else, nothing in front of `+`) - before, these readings of specRender were only cross-checked against the Python rules.  STILL NOT DONE: a whole-source partition theorem for the root tokenizer (pieces exist for tag interiors only; for texts, stripped whitespace and delimiters the statement is lex_eq_spec itself); non-ASCII identifiers (hook lex_identifier exists, the model still answers unsupported); parser-level constructs are in the declarative spec only through the wrap stream's Python evaluator (for / macro / call / set / filter / block / with / autoescape / if), not in Lean.  The table C10_SEARCH_SITES skips functions that exist only under cfg(feature = verif_hooks) (instrumentation, not compiled for users).  MOVED FROM VALIDATED TO PROVED in this round: (1) string literals with \\uXXXX (incl. surrogate pairs and from_str_radix's leading +), \\xXX and octal escapes are tokens of lex_eq_spec / interior_end_found (Tok.str with strBodyOk = what unescape accepts, proved equal to the model's character-by-character reading; they were 'unsupported'); (2) end delimiters that begin with - / + (after fix 2cdfe64), with digits, letters, quotes or any other non-blank character, comment ends that begin with whitespace, end delimiters that end in horizontal whitespace, and block/variable/comment start delimiters that end in a line break are inside goodDelims (they were excluded by hypothesis; the excluded point hid the defect); (3) raw tags under such end delimiters (skip_basic_tag).  NOT COVERED by the theorems, with the reason (real code probed at each point): (a) start delimiters that begin with whitespace (` {%`): after `-}}` or, for a leading line break, under trim_blocks the lexer removes the whitespace the next delimiter begins with and the tag becomes text - the statement's clauses 'whitespace adjacent to a - marker is removed' and 'rewriting tags to other delimiters changes nothing' contradict each other there; (b) line prefixes that end in a line break and end delimiters whose last non-blank character is a line break (`%}\\n`): Tokenizer::new removes the template's trailing line break, which is then part of the last tag's delimiter (the tag no longer closes), and lstrip_blocks sees a line start behind the tag - again a rule of the statement applies to whitespace that belongs to a delimiter; (c) variable / block end delimiters that begin with ASCII whitespace: build accepts them but blanks inside a tag are skipped before the end delimiter is looked for, so no tag ever closes (every tag is a syntax error; the cfg stream checks that such a set renders the probe as written or fails); (d) non-ASCII identifiers (model answers 'unsupported'; 713 of 12216 random-set cases).  Sources that do not read back as written are outside by definition of the statement (`<!---->` = `<!--` + left marker + unclosed body; end delimiter `--` followed by the text `-x` = marker + end, as in Jinja2).  The parser / code generator / renderer behind the lexer are covered by the differential runs only.",
 }
 
 _WS_CP = [9, 10, 11, 12, 13, 32, 0x85, 0xA0, 0x1680] + list(range(0x2000, 0x200B)) + [0x2028, 0x2029, 0x202F, 0x205F, 0x3000]
@@ -586,7 +586,7 @@ def run(r):
               "of length <= 5 (thorough 6) over {a, b, blank, newline} (also behind a prefix, mid-line and at a line start) x 450 "
               "(thorough 1680) start delimiter sets whose members are prefixes / suffixes / infixes of one another and self-overlapping, "
               "in every role incl. both line prefixes, against the model of the automaton path, the Lean leftmost-longest search and a "
-              "Python search.  entry: sampled segment sequences through "
+              "Python search; on the same haystacks the automaton's own report (start, end, pattern of every overlapping match, max_pattern_len) is checked against AcSpec by the Lean acSpecB and by Python (every 5th set; thorough all).  itok: tag interiors glued from 70 token fragments (every fragment, every pair glued / spaced - quick a third per family -, random mixtures of 3-6) x closing markers x 13 families x {variable tag, block tag, line statement}: token texts and tag end of the real lexer against scanPieces.  entry: sampled segment sequences through "
               "render_str, render_named_str, template_from_str, template_from_named_str, render_captured(_to), add_template + "
               "get_template, a cloned environment, a loader, and with the whitespace settings flipped after add_template / before the "
               "first load.  wrap: bodies from the segment alphabet inside for / macro / call / set / filter / block / with / autoescape "
@@ -607,7 +607,7 @@ def run(r):
     # the streams are produced and checked part by part to bound memory; the next part is produced
     # (harness + model driver, both child processes) while the current one is checked
     nch = 8 if r.tier == "thorough" else 1
-    parts = [("seg-exh", i, nch) for i in range(nch)] + [("seg-sample", 0, 1), ("seg-fam", 0, 1), ("prog", 0, 1), ("line", 0, 1), ("rand", 0, 1), ("big", 0, 1), ("kern", 0, 1), ("kac", 0, 1), ("entry", 0, 1), ("wrap", 0, 1), ("cfg", 0, 1)]
+    parts = [("seg-exh", i, nch) for i in range(nch)] + [("seg-sample", 0, 1), ("seg-fam", 0, 1), ("prog", 0, 1), ("line", 0, 1), ("rand", 0, 1), ("big", 0, 1), ("kern", 0, 1), ("kac", 0, 1), ("itok", 0, 1), ("entry", 0, 1), ("wrap", 0, 1), ("cfg", 0, 1)]
     r.exhaustive = False
     import queue, threading, concurrent.futures
     q = queue.Queue(maxsize=1)
@@ -626,8 +626,9 @@ def run(r):
                 if not lines:
                     q.put((which, f"harness c10 produced no cases for {which}", None, None))
                     return
-                if len(lines) > 100_000:
-                    # the model driver works line by line: large parts go through three processes
+                if len(lines) > 100_000 or which == "kac":
+                    # the model driver works line by line: large parts (and the kac part, whose lines each
+                    # stand for a thousand haystacks) go through three processes
                     k = (len(lines) + 2) // 3
                     chunks = ["\n".join(lines[j:j + k]) + "\n" for j in range(0, len(lines), k)]
                     del out
@@ -722,6 +723,28 @@ def check_lines(r, lines, model, verbose=False):
                 got = fl["res"][bad] if bad < len(fl["res"]) else "?"
                 r.oracle_failure(case, f"utils::{which}({hay[bad]!r}, {needle!r}) returned {got!r}, the leftmost occurrence is {want[bad]!r}",
                                  f"kern/{which}")
+            continue
+        if stream == "itok":
+            # the tokens inside a tag: the model's pieces (tokens_concat_verbatim / interior_is_partitioned are
+            # theorems about them) against the source text of the tokens the real lexer emits
+            r.count(case, True)
+            r.hist["itok"]["kind " + f[2]] += 1
+            mend, rend = ml.get("end", "?"), fl.get("end", "?")
+            r.hist["itok-end"][rend.split(":")[0]] += 1
+            if ml.get("cat") != "1":
+                r.broken.append(f"compiled model contradicts tokens_concat_verbatim on {case}")
+            if mend == "unsupported":
+                r.hist["model"]["unsupported interior"] += 1
+                continue
+            fam, d = parse_fam(f[1])
+            start = {"v": d["vs"], "b": d["bs"], "s": d["ls"]}[f[2]]
+            if py_find_start(d, "", start + unhex(f[3])) != kern_digit(0) + f[2] + kern_digit(len(start)):
+                # glued to the interior the start delimiter reads as another, longer one (`<%` + `=`)
+                r.hist["itok"]["skipped: start delimiter + interior is another tag"] += 1
+                continue
+            r.hist["model"]["compared"] += 1
+            if mend != rend or (rend.startswith("found") and ml.get("toks") != fl.get("toks")):
+                r.model_disagreement(case, f"toks={fl.get('toks')} end={rend}", f"toks={ml.get('toks')} end={mend}")
             continue
         if stream == "kac":
             fam, d = parse_fam(f[1])
